@@ -63,10 +63,10 @@ type mesherCase struct {
 // under C12); dcclip is Clip alone.  Both are compared exactly like the others.
 // dcinterior is MeshInterior: the workers also collect the interior end points of the bisected edges (compared
 // as a sorted list, appended to the face list as degenerate faces).
-var mesherAPIs = []string{"mc", "mc", "filter", "search", "interior", "c2f", "dc", "dc", "dcclip", "dcinterior", "dcrepair", "ms", "mssearch", "msc2f"}
+var mesherAPIs = []string{"mc", "mc", "filter", "search", "interior", "c2f", "dc", "dc", "dcclip", "dcinterior", "dcrepair", "dcrandom", "ms", "mssearch", "msc2f"}
 
 func isDC(api string) bool {
-	return api == "dc" || api == "dcclip" || api == "dcinterior" || api == "dcrepair"
+	return api == "dc" || api == "dcclip" || api == "dcinterior" || api == "dcrepair" || api == "dcrandom"
 }
 
 func genMesherCase(t *rapid.T) mesherCase {
@@ -172,8 +172,9 @@ func checkMesher(c mesherCase, o *kit.Obs) error {
 			return append(canonTris(m), extra...)
 		case "c2f":
 			return canonTris(model3d.MarchingCubesC2F(s, c.Big, c.Delta, 0, c.Iters))
-		case "dc", "dcclip", "dcinterior", "dcrepair":
-			dc := &model3d.DualContouring{S: model3d.SolidSurfaceEstimator{Solid: s}, Delta: c.Delta, MaxGos: c.MaxGos, BufferSize: c.Buf,
+		case "dc", "dcclip", "dcinterior", "dcrepair", "dcrandom":
+			// dcrandom: the documented option RandomSearchNormals draws probe directions at random in every worker
+			dc := &model3d.DualContouring{S: model3d.SolidSurfaceEstimator{Solid: s, RandomSearchNormals: c.API == "dcrandom"}, Delta: c.Delta, MaxGos: c.MaxGos, BufferSize: c.Buf,
 				Repair: c.API == "dcrepair", Clip: c.API == "dcclip" || c.API == "dcrepair"}
 			if c.API == "dcinterior" {
 				m, pts := dc.MeshInterior()
@@ -222,6 +223,9 @@ func checkMesher(c mesherCase, o *kit.Obs) error {
 		}
 		if len(got3) != len(ref3) || len(got2) != len(ref2) {
 			return fmt.Errorf("%s at GOMAXPROCS=%d produced %d faces, at GOMAXPROCS=1 %d", c.API, p, len(got3)+len(got2), len(ref3)+len(ref2))
+		}
+		if c.API == "dcrandom" {
+			continue // vertex positions follow the random probes; the faces are those of the same cells
 		}
 		for k := range ref3 {
 			if got3[k] != ref3[k] {
@@ -618,6 +622,10 @@ type heightCase struct {
 func genHeightCase(t *rapid.T) heightCase {
 	c := heightCase{Shape: genPart2(t, []string{"polar", "polar", "rect"}, "shape"), Grid: gen.Int(t, 4, 24, "grid"),
 		NumSpheres: gen.Int(t, 1, 80, "spheres"), Procs: []int{1, 2, 3, 4, 8, 16}[gen.Int(t, 0, 5, "procs")]}
+	if gen.Int(t, 0, 3, "many") == 0 {
+		// enough spheres for every worker to fill its private batches several times over
+		c.NumSpheres = c.Procs * gen.Int(t, 64, 300, "spheres-per-worker")
+	}
 	if gen.Int(t, 0, 1, "limit") == 0 {
 		c.MaxRadius = gen.F(t, 0.02, 0.6, "maxradius")
 	}
